@@ -26,7 +26,10 @@ CONSTANTS Scheds,     \* Scheds[i] = [p, ph]: schedule of the i-th entry added
           Variant,    \* "ok" | "stalenow" (remove arm keeps the old now) | "lateadd" (jobWaiter.Add inside the job goroutine)
                       \* | "unsortedadd" (add arm keeps the timer and skips the re-sort when the new entry is not before the head)
                       \* | "sharedmu" (DelayIfStillRunning's mutex shared by all entries of the Cron)
-          Chain       \* the WithChain option: "none" | "delay" | "skip" (Recover is the identity for jobs that do not panic)
+                      \* | "delayNoDefer" (DelayIfStillRunning unlocks without defer: a panicking job leaves the entry's mutex locked)
+                      \* | "runResetsRunning" (Run() clears c.running when it returns, whenever that is)
+          Panicking,  \* ids whose job panics on its first invocation (only with a chain that contains Recover)
+          Chain       \* the WithChain option: "none" | "delay" | "skip" | "recover+delay" | "recover+skip" (Recover alone is the identity here)
 
 N == Len(Scheds)
 Ids == 1..N
@@ -34,9 +37,14 @@ Ids == 1..N
 VARIABLES now, running, list, nx, pv, nadded, lpc, lnow, wi, timer,
           cpc, cop, reply, nops, nstops, jobs, wg, watchers, c,
           chain,      \* the chain in use (the constant Chain when model checking, the recorded one when replaying a trace)
+          jx,         \* jobs' extras: pan (ids whose job panics on its first invocation), done (those that did), stuck (ids
+                      \* whose delay mutex was left locked)
+          rx,         \* Run(): cur (number of the Run call whose goroutine runs the current loop, 0: started by Start), old
+                      \* (Run calls whose loop has ended and which have not returned yet), noop (Run calls that found the
+                      \* Cron running and have not returned yet), n (Run calls so far)
           sch, blk    \* sch[i]: schedule of entry i, blk: ids whose job blocks - filled by the Schedule call (from the
                       \* constants when model checking, from the recorded call when a trace of the real Cron is replayed)
-vars == <<now, running, list, nx, pv, nadded, lpc, lnow, wi, timer, cpc, cop, reply, nops, nstops, jobs, wg, watchers, c, chain, sch, blk>>
+vars == <<now, running, list, nx, pv, nadded, lpc, lnow, wi, timer, cpc, cop, reply, nops, nstops, jobs, wg, watchers, c, chain, sch, blk, jx, rx>>
 
 Off == [on |-> FALSE, dl |-> 0, fired |-> FALSE, buf |-> FALSE, val |-> 0]
 NoOp == [op |-> "none", id |-> 0]
@@ -50,6 +58,7 @@ InitWith(ch) ==
         /\ cpc = "idle" /\ cop = NoOp /\ reply = << >> /\ nops = 0 /\ nstops = 0
         /\ jobs = << >> /\ wg = 0 /\ watchers = {} /\ c = CInitC(0, ch) /\ chain = ch
         /\ sch = [i \in Ids |-> [p |-> 0, ph |-> 0]] /\ blk = {}
+        /\ jx = [pan |-> {}, done |-> {}, stuck |-> {}] /\ rx = [cur |-> 0, old |-> {}, noop |-> {}, n |-> 0]
 
 Init == InitWith(Chain)
 
@@ -70,17 +79,18 @@ Sorted(s) == CHOOSE t \in [1..Len(s) -> Range(s)] :
 Begin(op, id) == /\ cpc = "idle" /\ nops < MaxOps /\ nops' = nops + 1
                  /\ cop' = [op |-> op, id |-> id]
 
-CallSchedWith(p, ph, b) ==
+CallSchedWith(p, ph, b, pn) ==
   /\ nadded < N /\ Begin("sched", nadded + 1) /\ nadded' = nadded + 1
   /\ sch' = [sch EXCEPT ![nadded + 1] = [p |-> p, ph |-> ph]]
   /\ blk' = IF b THEN blk \cup {nadded + 1} ELSE blk
+  /\ jx' = IF pn THEN [jx EXCEPT !.pan = @ \cup {nadded + 1}] ELSE jx
   /\ LET id == nadded + 1
          call == [ev |-> "sched_call", id |-> id, p |-> p, ph |-> ph]
      IN IF running
           THEN /\ cpc' = "sending" /\ c' = Feed(c, <<call>>) /\ UNCHANGED list
           ELSE /\ list' = Append(list, id) /\ cpc' = "idle"
                /\ c' = Feed(c, <<call, [ev |-> "sched_ret", id |-> id]>>)
-  /\ UNCHANGED <<now, running, nx, pv, lpc, lnow, wi, timer, reply, nstops, jobs, wg, watchers, chain>>
+  /\ UNCHANGED <<now, running, nx, pv, lpc, lnow, wi, timer, reply, nstops, jobs, wg, watchers, chain, rx>>
 
 CallRemove(id) ==
   /\ id \in Range(list) /\ Begin("remove", id)
@@ -89,20 +99,39 @@ CallRemove(id) ==
           THEN /\ cpc' = "sending" /\ c' = Feed(c, <<call>>) /\ UNCHANGED list
           ELSE /\ list' = Without(list, id) /\ cpc' = "idle"
                /\ c' = Feed(c, <<call, [ev |-> "remove_ret", id |-> id]>>)
-  /\ UNCHANGED <<now, running, nx, pv, nadded, lpc, lnow, wi, timer, reply, nstops, jobs, wg, watchers, chain, sch, blk>>
+  /\ UNCHANGED <<now, running, nx, pv, nadded, lpc, lnow, wi, timer, reply, nstops, jobs, wg, watchers, chain, sch, blk, jx, rx>>
 
 CallEntries ==
   /\ Begin("entries", 0)
   /\ IF running
        THEN /\ cpc' = "sending" /\ c' = Feed(c, <<[ev |-> "entries_call"]>>)
        ELSE /\ cpc' = "idle" /\ c' = Feed(c, <<[ev |-> "entries_call"], [ev |-> "entries_ret", list |-> Snapshot]>>)
-  /\ UNCHANGED <<now, running, list, nx, pv, nadded, lpc, lnow, wi, timer, reply, nstops, jobs, wg, watchers, chain, sch, blk>>
+  /\ UNCHANGED <<now, running, list, nx, pv, nadded, lpc, lnow, wi, timer, reply, nstops, jobs, wg, watchers, chain, sch, blk, jx, rx>>
 
 CallStart ==
   /\ Begin("start", 0) /\ cpc' = "idle"
   /\ c' = Feed(c, <<[ev |-> "start"]>>)
-  /\ IF running THEN UNCHANGED <<running, lpc>> ELSE running' = TRUE /\ lpc' = "init"
-  /\ UNCHANGED <<now, list, nx, pv, nadded, lnow, wi, timer, reply, nstops, jobs, wg, watchers, chain, sch, blk>>
+  /\ IF running THEN UNCHANGED <<running, lpc, rx>> ELSE running' = TRUE /\ lpc' = "init" /\ rx' = [rx EXCEPT !.cur = 0]
+  /\ UNCHANGED <<now, list, nx, pv, nadded, lnow, wi, timer, reply, nstops, jobs, wg, watchers, chain, sch, blk, jx>>
+
+(* Run(): the same on the caller's goroutine, which then IS the scheduler loop; on a running Cron it returns at once *)
+CallRun ==
+  /\ Begin("run", rx.n + 1) /\ cpc' = "idle"
+  /\ c' = Feed(c, <<[ev |-> "runcall", r |-> rx.n + 1]>>)
+  /\ IF running THEN /\ UNCHANGED <<running, lpc>> /\ rx' = [rx EXCEPT !.n = @ + 1, !.noop = @ \cup {rx.n + 1}]
+                ELSE /\ running' = TRUE /\ lpc' = "init" /\ rx' = [rx EXCEPT !.n = @ + 1, !.cur = rx.n + 1]
+  /\ UNCHANGED <<now, list, nx, pv, nadded, lnow, wi, timer, reply, nstops, jobs, wg, watchers, chain, sch, blk, jx>>
+(* ... and Run() returns: after its loop has ended, or at once *)
+RunReturn(r) ==                   \* several ended Run goroutines return in any order
+  /\ r \in rx.old /\ rx' = [rx EXCEPT !.old = @ \ {r}]
+  /\ c' = Feed(c, <<[ev |-> "runret", r |-> r]>>)
+  /\ IF Variant = "runResetsRunning" THEN cpc = "idle" /\ running' = FALSE ELSE UNCHANGED running
+  /\ UNCHANGED <<now, list, nx, pv, nadded, lpc, lnow, wi, timer, cpc, cop, reply, nops, nstops, jobs, wg, watchers, chain, sch, blk, jx>>
+RunNoopReturn ==
+  /\ \E r \in rx.noop : /\ rx' = [rx EXCEPT !.noop = @ \ {r}]
+                        /\ c' = Feed(c, <<[ev |-> "runret", r |-> r]>>)
+  /\ UNCHANGED <<now, running, list, nx, pv, nadded, lpc, lnow, wi, timer, cpc, cop, reply, nops, nstops, jobs, wg, watchers, chain, sch, blk, jx>>
+RunRets == (\E r \in rx.old : RunReturn(r)) \/ RunNoopReturn
 
 CallStop ==
   /\ Begin("stop", nstops + 1) /\ nstops' = nstops + 1
@@ -111,7 +140,7 @@ CallStop ==
           THEN /\ cpc' = "sending" /\ c' = Feed(c, <<[ev |-> "stop_call", k |-> k]>>) /\ UNCHANGED watchers
           ELSE /\ cpc' = "idle" /\ watchers' = watchers \cup {k}
                /\ c' = Feed(c, <<[ev |-> "stop_call", k |-> k], [ev |-> "stop_ret", k |-> k]>>)
-  /\ UNCHANGED <<now, running, list, nx, pv, nadded, lpc, lnow, wi, timer, reply, jobs, wg, chain, sch, blk>>
+  /\ UNCHANGED <<now, running, list, nx, pv, nadded, lpc, lnow, wi, timer, reply, jobs, wg, chain, sch, blk, jx, rx>>
 
 (* the call returns (after the loop took the rendezvous) *)
 Ret ==
@@ -121,16 +150,16 @@ Ret ==
        [] cop.op = "entries" -> c' = Feed(c, <<[ev |-> "entries_ret", list |-> reply]>>) /\ UNCHANGED <<running, watchers>>
        [] cop.op = "stop"    -> /\ c' = Feed(c, <<[ev |-> "stop_ret", k |-> cop.id]>>)
                                 /\ running' = FALSE /\ watchers' = watchers \cup {cop.id}
-  /\ UNCHANGED <<now, list, nx, pv, nadded, lpc, lnow, wi, timer, cop, reply, nops, nstops, jobs, wg, chain, sch, blk>>
+  /\ UNCHANGED <<now, list, nx, pv, nadded, lpc, lnow, wi, timer, cop, reply, nops, nstops, jobs, wg, chain, sch, blk, jx, rx>>
 
-CallSched == nadded < N /\ CallSchedWith(Scheds[nadded + 1].p, Scheds[nadded + 1].ph, (nadded + 1) \in Blocking)
-Call == CallSched \/ CallEntries \/ CallStart \/ CallStop \/ \E id \in Ids : CallRemove(id)
+CallSched == nadded < N /\ CallSchedWith(Scheds[nadded + 1].p, Scheds[nadded + 1].ph, (nadded + 1) \in Blocking, (nadded + 1) \in Panicking)
+Call == CallSched \/ CallEntries \/ CallStart \/ CallRun \/ CallStop \/ \E id \in Ids : CallRemove(id)
 
 (* ---------------- run() ---------------- *)
 LInit == /\ lpc = "init" /\ lnow' = now
          /\ nx' = [i \in Ids |-> IF i \in Range(list) THEN SNext(i, now) ELSE nx[i]]
          /\ lpc' = "sort"
-         /\ UNCHANGED <<now, running, list, pv, nadded, wi, timer, cpc, cop, reply, nops, nstops, jobs, wg, watchers, c, chain, sch, blk>>
+         /\ UNCHANGED <<now, running, list, pv, nadded, wi, timer, cpc, cop, reply, nops, nstops, jobs, wg, watchers, c, chain, sch, blk, jx, rx>>
 
 (* sort, arm the timer for entries[0].Next - now (relative to the clock's current time) *)
 LSort == /\ lpc = "sort" /\ list' = Sorted(list)
@@ -138,11 +167,11 @@ LSort == /\ lpc = "sort" /\ list' = Sorted(list)
                      ELSE [on |-> TRUE, dl |-> now + (nx[Sorted(list)[1]] - lnow), fired |-> FALSE,
                            buf |-> FALSE, val |-> 0]
          /\ lpc' = "select"
-         /\ UNCHANGED <<now, running, nx, pv, nadded, lnow, wi, cpc, cop, reply, nops, nstops, jobs, wg, watchers, c, chain, sch, blk>>
+         /\ UNCHANGED <<now, running, nx, pv, nadded, lnow, wi, cpc, cop, reply, nops, nstops, jobs, wg, watchers, c, chain, sch, blk, jx, rx>>
 
 SelTimer == /\ lpc = "select" /\ timer.on /\ timer.buf
             /\ lnow' = timer.val /\ timer' = Off /\ lpc' = "wake" /\ wi' = 1
-            /\ UNCHANGED <<now, running, list, nx, pv, nadded, cpc, cop, reply, nops, nstops, jobs, wg, watchers, c, chain, sch, blk>>
+            /\ UNCHANGED <<now, running, list, nx, pv, nadded, cpc, cop, reply, nops, nstops, jobs, wg, watchers, c, chain, sch, blk, jx, rx>>
 
 Before2(a, b) == a < b          \* time.Time.Before on the raw instants (the zero time is before everything)
 (* the leftover timer is stopped and drained before the next pass *)
@@ -154,17 +183,18 @@ SelAdd == /\ lpc = "select" /\ cpc = "sending" /\ cop.op = "sched"
           /\ lnow' = now /\ nx' = [nx EXCEPT ![cop.id] = SNext(cop.id, now)]
           /\ list' = Append(list, cop.id) /\ cpc' = "got"
           /\ IF KeepTimer THEN UNCHANGED <<timer, lpc>> ELSE timer' = Drained /\ lpc' = "sort"
-          /\ UNCHANGED <<now, running, pv, nadded, wi, cop, reply, nops, nstops, jobs, wg, watchers, c, chain, sch, blk>>
+          /\ UNCHANGED <<now, running, pv, nadded, wi, cop, reply, nops, nstops, jobs, wg, watchers, c, chain, sch, blk, jx, rx>>
 SelRemove == /\ lpc = "select" /\ cpc = "sending" /\ cop.op = "remove"
              /\ lnow' = IF Variant = "stalenow" THEN lnow ELSE now
              /\ list' = Without(list, cop.id) /\ timer' = Drained /\ lpc' = "sort" /\ cpc' = "got"
-             /\ UNCHANGED <<now, running, nx, pv, nadded, wi, cop, reply, nops, nstops, jobs, wg, watchers, c, chain, sch, blk>>
+             /\ UNCHANGED <<now, running, nx, pv, nadded, wi, cop, reply, nops, nstops, jobs, wg, watchers, c, chain, sch, blk, jx, rx>>
 SelSnapshot == /\ lpc = "select" /\ cpc = "sending" /\ cop.op = "entries"
                /\ reply' = Snapshot /\ cpc' = "got"
-               /\ UNCHANGED <<now, running, list, nx, pv, nadded, lpc, lnow, wi, timer, cop, nops, nstops, jobs, wg, watchers, c, chain, sch, blk>>
+               /\ UNCHANGED <<now, running, list, nx, pv, nadded, lpc, lnow, wi, timer, cop, nops, nstops, jobs, wg, watchers, c, chain, sch, blk, jx, rx>>
 SelStop == /\ lpc = "select" /\ cpc = "sending" /\ cop.op = "stop"
            /\ timer' = Off /\ lpc' = "off" /\ cpc' = "got"
-           /\ UNCHANGED <<now, running, list, nx, pv, nadded, lnow, wi, cop, reply, nops, nstops, jobs, wg, watchers, c, chain, sch, blk>>
+           /\ rx' = IF rx.cur # 0 THEN [rx EXCEPT !.old = @ \cup {rx.cur}, !.cur = 0] ELSE rx
+           /\ UNCHANGED <<now, running, list, nx, pv, nadded, lnow, wi, cop, reply, nops, nstops, jobs, wg, watchers, c, chain, sch, blk, jx>>
 
 (* wake: every entry (in sorted order) whose Next is not after now is started *)
 LWake == /\ lpc = "wake"
@@ -176,7 +206,7 @@ LWake == /\ lpc = "wake"
                    /\ c' = Feed(c, <<[ev |-> "run", id |-> id]>>)
                    /\ wi' = wi + 1 /\ UNCHANGED lpc
               ELSE /\ lpc' = "sort" /\ UNCHANGED <<jobs, wg, pv, nx, c, wi>>
-         /\ UNCHANGED <<now, running, list, nadded, lnow, timer, cpc, cop, reply, nops, nstops, watchers, chain, sch, blk>>
+         /\ UNCHANGED <<now, running, list, nadded, lnow, timer, cpc, cop, reply, nops, nstops, watchers, chain, sch, blk, jx, rx>>
 
 Loop == LInit \/ LSort \/ SelTimer \/ SelAdd \/ SelRemove \/ SelSnapshot \/ SelStop \/ LWake
 
@@ -185,27 +215,34 @@ SetSt(j, st) == [jobs EXCEPT ![j].st = st]
 (* the wrappers: DelayIfStillRunning holds a mutex (one per entry) around the job, SkipIfStillRunning a one-slot  *)
 (* token (one per entry); the invocation whose job is running or blocked holds it                                *)
 SameLock(j, k) == k # j /\ jobs[k].st \in {"running", "blocked"} /\ (jobs[k].id = jobs[j].id \/ Variant = "sharedmu")
-Held(j) == \E k \in 1..Len(jobs) : SameLock(j, k)
+Held(j) == \/ \E k \in 1..Len(jobs) : SameLock(j, k)
+           \/ jobs[j].id \in jx.stuck
 JBegin(j) == /\ jobs[j].st = "spawned"
-             /\ (chain \in {"delay", "recover+delay", "skip"} => ~Held(j))
+             /\ (chain \in {"delay", "recover+delay", "skip", "recover+skip"} => ~Held(j))
              /\ wg' = IF Variant = "lateadd" THEN wg + 1 ELSE wg
              /\ jobs' = SetSt(j, IF jobs[j].id \in blk THEN "blocked" ELSE "running")
              /\ c' = Feed(c, <<[ev |-> "jobstart", id |-> jobs[j].id]>>)
-             /\ UNCHANGED <<now, running, list, nx, pv, nadded, lpc, lnow, wi, timer, cpc, cop, reply, nops, nstops, watchers, chain, sch, blk>>
-JSkip(j) == /\ jobs[j].st = "spawned" /\ chain = "skip" /\ Held(j)
+             /\ UNCHANGED <<now, running, list, nx, pv, nadded, lpc, lnow, wi, timer, cpc, cop, reply, nops, nstops, watchers, chain, sch, blk, jx, rx>>
+JSkip(j) == /\ jobs[j].st = "spawned" /\ chain \in {"skip", "recover+skip"} /\ Held(j)
             /\ wg' = IF Variant = "lateadd" THEN wg ELSE wg - 1
             /\ jobs' = [k \in 1..(Len(jobs) - 1) |-> IF k < j THEN jobs[k] ELSE jobs[k + 1]]
             /\ c' = Feed(c, <<[ev |-> "jobskip", id |-> jobs[j].id]>>)
-            /\ UNCHANGED <<now, running, list, nx, pv, nadded, lpc, lnow, wi, timer, cpc, cop, reply, nops, nstops, watchers, chain, sch, blk>>
+            /\ UNCHANGED <<now, running, list, nx, pv, nadded, lpc, lnow, wi, timer, cpc, cop, reply, nops, nstops, watchers, chain, sch, blk, jx, rx>>
 JUnblock(j) == /\ jobs[j].st = "blocked" /\ jobs' = SetSt(j, "running")
-               /\ UNCHANGED <<now, running, list, nx, pv, nadded, lpc, lnow, wi, timer, cpc, cop, reply, nops, nstops, wg, watchers, c, chain, sch, blk>>
+               /\ UNCHANGED <<now, running, list, nx, pv, nadded, lpc, lnow, wi, timer, cpc, cop, reply, nops, nstops, wg, watchers, c, chain, sch, blk, jx, rx>>
 JEnd(j) == /\ jobs[j].st = "running" /\ wg' = wg - 1
            /\ jobs' = [k \in 1..(Len(jobs) - 1) |-> IF k < j THEN jobs[k] ELSE jobs[k + 1]]
            /\ c' = Feed(c, <<[ev |-> "jobend", id |-> jobs[j].id]>>)
-           /\ UNCHANGED <<now, running, list, nx, pv, nadded, lpc, lnow, wi, timer, cpc, cop, reply, nops, nstops, watchers, chain, sch, blk>>
+           /\ LET id == jobs[j].id
+                  panics == id \in jx.pan /\ id \notin jx.done        \* the first invocation ends by panicking (recovered above)
+              IN jx' = IF panics
+                         THEN [jx EXCEPT !.done = @ \cup {id},
+                                         !.stuck = IF Variant = "delayNoDefer" /\ chain \in {"delay", "recover+delay"} THEN @ \cup {id} ELSE @]
+                         ELSE jx
+           /\ UNCHANGED <<now, running, list, nx, pv, nadded, lpc, lnow, wi, timer, cpc, cop, reply, nops, nstops, watchers, chain, sch, blk, rx>>
 WDone(k) == /\ k \in watchers /\ wg = 0 /\ watchers' = watchers \ {k}
             /\ c' = Feed(c, <<[ev |-> "stopctx_done", k |-> k]>>)
-            /\ UNCHANGED <<now, running, list, nx, pv, nadded, lpc, lnow, wi, timer, cpc, cop, reply, nops, nstops, jobs, wg, chain, sch, blk>>
+            /\ UNCHANGED <<now, running, list, nx, pv, nadded, lpc, lnow, wi, timer, cpc, cop, reply, nops, nstops, jobs, wg, chain, sch, blk, jx, rx>>
 Job == \E j \in 1..Len(jobs) : JBegin(j) \/ JEnd(j) \/ JSkip(j)
 Unblock == \E j \in 1..Len(jobs) : JUnblock(j)
 Waiter == \E k \in watchers : WDone(k)
@@ -218,19 +255,19 @@ Step(d) == /\ cpc = "idle" /\ Parked /\ now + d <= MaxNow
            /\ timer' = IF timer.on /\ ~timer.fired /\ timer.dl <= now + d
                          THEN [timer EXCEPT !.fired = TRUE, !.buf = TRUE, !.val = now + d] ELSE timer
            /\ c' = Feed(c, <<[ev |-> "adv", now |-> now + d]>>)
-           /\ UNCHANGED <<running, list, nx, pv, nadded, lpc, lnow, wi, cpc, cop, reply, nops, nstops, jobs, wg, watchers, chain, sch, blk>>
+           /\ UNCHANGED <<running, list, nx, pv, nadded, lpc, lnow, wi, cpc, cop, reply, nops, nstops, jobs, wg, watchers, chain, sch, blk, jx, rx>>
 Adv == \E d \in 1..MaxStep : ~Pending /\ Step(d)
 Nudge == timer.on /\ ~timer.fired /\ timer.dl <= now /\ Step(0)
 
 (* a quiescent point as the harness reports it *)
-Quiet == /\ cpc = "idle" /\ Parked /\ ~(timer.on /\ timer.buf)     \* an unfired timer, even overdue, leaves the loop blocked
+Quiet == /\ cpc = "idle" /\ Parked /\ rx.old = {} /\ rx.noop = {} /\ ~(timer.on /\ timer.buf)     \* an unfired timer, even overdue, leaves the loop blocked
          /\ \A j \in 1..Len(jobs) : jobs[j].st = "blocked" \/ (jobs[j].st = "spawned" /\ chain \in {"delay", "recover+delay"} /\ Held(j))
          /\ (watchers = {} \/ wg > 0)
 Quiesce == /\ Quiet /\ c' = Feed(c, <<[ev |-> "quiescent"]>>)
-           /\ UNCHANGED <<now, running, list, nx, pv, nadded, lpc, lnow, wi, timer, cpc, cop, reply, nops, nstops, jobs, wg, watchers, chain, sch, blk>>
+           /\ UNCHANGED <<now, running, list, nx, pv, nadded, lpc, lnow, wi, timer, cpc, cop, reply, nops, nstops, jobs, wg, watchers, chain, sch, blk, jx, rx>>
 
-Next == Call \/ Ret \/ Loop \/ Job \/ Unblock \/ Waiter \/ Adv \/ Nudge \/ Quiesce
-Spec == Init /\ [][Next]_vars /\ WF_vars(Loop) /\ WF_vars(Ret) /\ WF_vars(Job) /\ WF_vars(Nudge) /\ WF_vars(Waiter)
+Next == Call \/ Ret \/ RunRets \/ Loop \/ Job \/ Unblock \/ Waiter \/ Adv \/ Nudge \/ Quiesce
+Spec == Init /\ [][Next]_vars /\ WF_vars(Loop) /\ WF_vars(Ret) /\ WF_vars(RunRets) /\ WF_vars(Job) /\ WF_vars(Nudge) /\ WF_vars(Waiter)
 
 (* ---------------- properties ---------------- *)
 Accepted == ~IsBad(c)
